@@ -535,6 +535,9 @@ class FakeQueue(_Shared):
     """multiprocessing.SimpleQueue stand-in: FIFO, atomic put, blocking get; `capacity` models the pipe"""
 
     poison = frozenset()        # texts of messages that cannot be un-pickled by the reader: get() consumes them and raises
+    poison_exc = RuntimeError   # ... with this exception class (C03: any Exception subclass un-pickling can raise)
+    putfail = frozenset()       # texts of messages whose record cannot be pickled by the writer: put() raises, nothing queued
+    flaky = [0]                 # number of get() calls that still raise WITHOUT consuming anything (a read error)
 
     def __init__(self, capacity=None):
         self.items = []
@@ -548,6 +551,10 @@ class FakeQueue(_Shared):
                 s.point("put?", self.key, _item(item), blocked=lambda: len(self.items) >= self.capacity)
             else:
                 s.point("put?", self.key, _item(item))
+            if isinstance(item, str) and FakeQueue.putfail and str(item).strip() in FakeQueue.putfail:
+                s.log_event("putfail", self.key, _item(item))
+                import pickle as _pickle
+                raise _pickle.PicklingError("the record could not be pickled")
             self.items.append(item)
             s.log_event("put", self.key, _item(item))
         else:
@@ -557,10 +564,14 @@ class FakeQueue(_Shared):
         s = S()
         if s is not None and s.me() is not None:
             s.point("get?", self.key, blocked=lambda: not self.items)
+            if FakeQueue.flaky[0] > 0:
+                FakeQueue.flaky[0] -= 1
+                s.log_event("getraise", self.key)
+                raise OSError(4, "Interrupted system call")
             item = self.items.pop(0)
             if isinstance(item, str) and str(item).strip() in FakeQueue.poison:
                 s.log_event("get", self.key, "poison:" + str(item).strip())
-                raise RuntimeError("the item could not be un-pickled")
+                raise FakeQueue.poison_exc("the item could not be un-pickled")
             s.log_event("get", self.key, _item(item))
             return item
         if not self.items:
